@@ -21,17 +21,21 @@ def _res(ck):
 def seeds_table():
     rows = []
     import collections
-    first = collections.Counter(); final = collections.Counter()
+    first = collections.Counter(); final = collections.Counter(); per_round = {}
     for d in sorted(glob.glob(V + "/seeded/*/")):
         sid = os.path.basename(d.rstrip("/"))
         try: m = json.load(open(d + "meta.json"))
         except Exception: continue
         fs = _res((m.get("first_shot") or {}).get("checks")); fin = _res(m.get("checks"))
         first[fs] += 1; final[fin] += 1
+        rnd = sid.split("-")[1]
+        key = "quick, failing input" if fs.startswith("quick: failing") else ("quick, no input" if fs.startswith("quick") else ("thorough only" if fs.startswith("thorough") else "missed"))
+        per_round.setdefault(rnd, collections.Counter())[key] += 1
         summ = re.sub(r"\s+", " ", m.get("summary", ""))[:200]
         rows.append("| %s | %s | %s | %s | %s |" % (sid, summ.replace("|", "/"), "yes" if m.get("confirmed") else ("NO" if m.get("confirmed") is False else "?"), fs, fin))
     tot = lambda c: ", ".join("%s: %d" % kv for kv in sorted(c.items()))
-    return "\n".join(rows) + "\n\nTotals - first shot (the machinery as it was when the seed arrived): " + tot(first) + ".  Final (after the strengthening the miss prompted): " + tot(final) + ".\n"
+    pr = "\n\nFirst shot per round (20 seeds each): " + "; ".join("round %s: %s" % (r, ", ".join("%s %d" % (k, c[k]) for k in ("quick, failing input", "quick, no input", "thorough only", "missed"))) for r, c in sorted(per_round.items())) + "."
+    return "\n".join(rows) + pr + "\n\nTotals - first shot (the machinery as it was when the seed arrived): " + tot(first) + ".  Final (after the strengthening the miss prompted): " + tot(final) + ".\n"
 
 def axioms_table():
     rows = []
